@@ -44,7 +44,7 @@ func ScratchDir() (string, func()) {
 	if _, err := os.Stat(base); err != nil {
 		base = os.TempDir()
 	}
-	d := fmt.Sprintf("%s/verif-%d-%d", base, os.Getpid(), dirCtr.Add(1))
+	d := fmt.Sprintf("%s/verif-%d/%d", base, os.Getpid(), dirCtr.Add(1))
 	if err := os.MkdirAll(d+"/db", 0o755); err != nil {
 		panic(err)
 	}
@@ -168,6 +168,7 @@ func RemoveTemplates() {
 		_ = os.RemoveAll(filepath.Dir(filepath.Dir(p)))
 	}
 	tmpl = map[string]string{}
+	_ = os.Remove(fmt.Sprintf("/dev/shm/verif-%d", os.Getpid()))
 }
 
 func copyFile(from, to string) error {
